@@ -359,6 +359,16 @@ func check(prop, tier string) int {
 		"violations_by_clause":    clauseCount,
 		"known_findings_matched":  knownHit,
 	}
+	if prop == "C16" {
+		switch {
+		case props.NewIndexInst != nil:
+			cov["statement_granular_phase"] = fmt.Sprintf("ran on the instrumented scratch copy of regions/ (%d yield sites)", len(props.SiteFuncs))
+		case os.Getenv("VERIF_C16_NOSTMT") != "":
+			cov["statement_granular_phase"] = "NOT RUN, operation granularity only: " + os.Getenv("VERIF_C16_NOSTMT")
+		default:
+			cov["statement_granular_phase"] = "NOT RUN: this binary does not link the instrumented copy (use ./check C16, which builds it)"
+		}
+	}
 	ev := map[string]any{
 		"property_id": prop,
 		"tier":        tier,
